@@ -23,3 +23,4 @@ INVARIANT InvWellFormed
 INVARIANT InvIdempotent
 INVARIANT InvRefGlobal
 INVARIANT InvCyclicDef
+INVARIANT InvRefPerGraph
